@@ -448,10 +448,15 @@ vfps::HDF5File::readPhaseSpace( std::string fname
 
     std::vector<hsize_t> ps_offset;
     std::vector<hsize_t> ps_ext;
+    if ((rank != 3 && rank != 4) || ps_dims[0] == 0) {
+        throw HDF5FileException("Unexpected phase space dataset.");
+    }
     use_step = (ps_dims[0]+use_step)%ps_dims[0];
     meshindex_t ps_size;
     uint32_t nBunches = 1U;
     switch (rank) {
+    default:
+        throw HDF5FileException("Unexpected phase space dataset.");
     case 3:
         ps_size = ps_dims[1];
         ps_offset =  {{static_cast<hsize_t>(use_step),0,0}};
